@@ -98,6 +98,14 @@ ABS_PC = {
 }
 
 
+IFNOT_BUILDERS = {
+    "mach::link::Link::push_ifnot": "target = the symbol argument (checked at every call site)",
+    "mach::link::Link::push_while": "target = the WEND paired by position in link_whiles",
+    "mach::link::Link::link": "re-builds the opcode with the resolved address of the same symbol",
+    "<mach::opcode::Opcode as std::clone::Clone>::clone": "derived copy",
+}
+
+
 def rule_abs_pc(ctx, cr):
     got = {}
     for p, f in sorted(cr.fns.items()):
@@ -122,6 +130,27 @@ def rule_abs_pc(ctx, cr):
                   "keeps a direct statement out of a program with compile errors is in the Jump "
                   "arm of the dispatch loop, so this transfer bypasses it" % key)
     ctx.floor("C19.a", "absolute writers of pc", len(got), 8)
+    # the IfNot row holds only if IfNot never targets a line: its symbol is always a fresh local
+    # label (Link::next_symbol), and only push_ifnot builds the opcode
+    n = 0
+    for p, f in sorted(cr.fns.items()):
+        for c in f.calls_to("mach::link::Link::push_ifnot"):
+            n += 1
+            v = f.value_of_operand(c.args[2])
+            ok = bool(v and v.get("k") == "call" and
+                      (v["call"].callee or "").endswith("mach::link::Link::next_symbol"))
+            ctx.check(ok, "C19.a", "IfNot/%s#%d/local-label" % (p.rsplit("::", 1)[1], n), c.span,
+                      "the conditional branch targets a label from next_symbol()",
+                      "an IfNot is emitted with a symbol that is not a fresh local label (%s): a "
+                      "conditional branch to a LINE enters the program without passing the "
+                      "compile-error gate of the Jump arm (direct `IF 0 THEN .. ELSE 100` runs a "
+                      "program that has errors)" % f.describe(c.args[2])[:80])
+        for b, i, st in f.aggregates("mach::opcode::Opcode", "IfNot"):
+            ctx.check(p in IFNOT_BUILDERS, "C19.a", "IfNot/built-by/%s" % p.rsplit("::", 1)[1],
+                      st["span"], IFNOT_BUILDERS.get(p, ""),
+                      "Opcode::IfNot is built in %s, where its target is not known to be a local "
+                      "label (reviewed builders: %s)" % (p, sorted(IFNOT_BUILDERS)))
+    ctx.floor("C19.a", "IfNot emission sites", n, 1)
 
 
 def rule_b(ctx, cr):
